@@ -22,9 +22,12 @@
      X10-e  context: field 20 (egress_ifindex) is not readable by an XDP program attached to a device; field 8
             (data_meta) is a pointer, not a scalar
      X10-f  byte swap: the 64-bit class has only the unconditional form (source bit clear); NEG has no register form
+     X10-h  (precision) map_update_elem accepts a value in packet memory inside the proven range: the original rejected
+            four programs of the thorough C05 corpus for it
      X10-g  atomic operations: only STX | ATOMIC with operation field 0 (add) is modelled; ST has only mode MEM;
             LDX only mode MEM; an atomic operation needs a naturally aligned address on every kind of memory
-   The original header follows.                                                                                  *)
+   The variable vrange and the "unknown offset" UNK of the original are kept but no longer used (the range lives in
+   the packet pointers, offsets are always known).  The original header follows.                                  *)
 (* C05 - the acceptance rules of the Linux eBPF verifier that the generator relies on, as a
    type-state machine explored by TLC over ALL paths of a program (ebpfcat emits forward jumps only,
    so every program has finitely many paths).
@@ -182,7 +185,7 @@ VAlu(i) ==
          ELSE IF ImmInt(i) \notin {16, 32, 64} THEN Reject("byte-swap-width")
          \* X10-f: BPF_ALU64 | BPF_END exists only as the unconditional swap (BPF_TO_LE bit); "BPF_END uses reserved fields"
          ELSE IF is64 /\ SrcIsReg(i.op) THEN Reject("byte-swap-64-bit-class-with-direction")
-         ELSE Nxt(vreg))
+         ELSE Nxt(SetR(i.dst, VS)))                               \* X10-c: a range known before does not survive
     ELSE IF code > 12 THEN Reject("bad-alu-code")
     ELSE IF code = 8 /\ SrcIsReg(i.op) THEN Reject("bad-alu-code")          \* X10-f: "BPF_NEG uses reserved fields"
     ELSE IF usesrc /\ s.t = "u" THEN Reject("read-of-unwritten-register")
@@ -346,7 +349,11 @@ VCall(i) ==
                                   vlo |-> 0, vhi |-> 0, val |-> 8])  (* X10-c: no variable part yet *),
                   vinit, vrange, vnext + 1)
          ELSE IF f = 2 /\ ~(\/ StackBytesOK(vreg[3], mp.vs)
-                            \/ (vreg[3].t = "mv" /\ ~vreg[3].nul)) THEN Reject("helper-value-not-initialised-memory")
+                            \/ (vreg[3].t = "mv" /\ ~vreg[3].nul)
+                            \* X10-h (precision, not soundness): the generator passes packet memory as the value
+                            \* (hash variable := packet variable); check_helper_mem_access -> check_packet_access
+                            \/ (vreg[3].t = "pkt" /\ vreg[3].o >= 0 /\ vreg[3].o + mp.vs <= vreg[3].r))
+              THEN Reject("helper-value-not-initialised-memory")
          \* the helper reads mp.vs bytes: inside a map value they must lie inside that value (found with F35)
          ELSE IF f = 2 /\ vreg[3].t = "mv" /\ Known(vreg[3].o)                            \* X10-c: variable part
                        /\ (vreg[3].o + vreg[3].vlo < 0 \/ vreg[3].o + vreg[3].vhi + mp.vs > VMaps[vreg[3].fd].vs)
